@@ -239,22 +239,22 @@ type c03Pw struct {
 
 // c03World is the concrete database content and server of one case.
 type c03World struct {
-	DevID, OthID, UnkID     agd.DeviceID
-	PDev, POth              agd.ProfileID
-	DevHuman                string // as configured (mixed case allowed by the backend? kept lower)
-	DevLinked, OthLinked    netip.Addr
-	DevDed, OthDed          []netip.Addr
-	UnkDed                  netip.Addr
-	Own                     []netip.AddrPort
-	Domains                 []string
-	Password                string
-	AuthNote                string
-	DeletedKeepsDevs        bool
-	Sibling                 bool
-	autoID                  agd.DeviceID
-	autoCalls               int
-	db                      *profiledb.Default
-	srv                     *agd.Server
+	DevID, OthID, UnkID  agd.DeviceID
+	PDev, POth           agd.ProfileID
+	DevHuman             string // as configured (mixed case allowed by the backend? kept lower)
+	DevLinked, OthLinked netip.Addr
+	DevDed, OthDed       []netip.Addr
+	UnkDed               netip.Addr
+	Own                  []netip.AddrPort
+	Domains              []string
+	Password             string
+	AuthNote             string
+	DeletedKeepsDevs     bool
+	Sibling              bool
+	autoID               agd.DeviceID
+	autoCalls            int
+	db                   *profiledb.Default
+	srv                  *agd.Server
 }
 
 type c03Conc struct {
